@@ -38,6 +38,25 @@ theorem getD_opt_map_map (x : List (List α)) (g : α → β) (r : Nat) :
     (Option.map (fun row => List.map g row) x[r]?).getD [] = List.map g (x[r]?.getD []) := by
   cases x[r]? <;> simp
 
+/-- positions inside a three-part concatenation -/
+theorem three_part (A B C : List β) {a b c : Nat} (hA : A.length = a) (hB : B.length = b)
+    (hC : C.length = c) :
+    (A ++ (B ++ C)).length = a + b + c ∧ ∀ k, k < a + b + c →
+      (A ++ (B ++ C))[k]? = if k < a then A[k]? else if k < a + b then B[k - a]? else C[k - a - b]? := by
+  subst hA hB hC
+  refine ⟨by simp [Nat.add_assoc], ?_⟩
+  intro k _
+  by_cases h1 : k < A.length
+  · rw [if_pos h1, List.getElem?_append_left h1]
+  · rw [if_neg h1, List.getElem?_append_right (Nat.le_of_not_lt h1)]
+    by_cases h2 : k < A.length + B.length
+    · rw [if_pos h2, List.getElem?_append_left (by omega)]
+    · rw [if_neg h2, List.getElem?_append_right (by omega)]
+
+theorem getElem?_map_of_lt (l : List α) (g : α → β) (d : α) {k : Nat} (h : k < l.length) :
+    (l.map g)[k]? = some (g (l.getD k d)) := by
+  rw [List.getElem?_map, getElem?_of_lt_getD l d h]; rfl
+
 /-- consecutive slices along monotone offsets glue back to a prefix -/
 theorem flatten_slices (row : List α) (off : Nat → Nat) (n : Nat) (h0 : off 0 = 0)
     (hmono : ∀ c, c < n → off c ≤ off (c + 1)) :
@@ -141,11 +160,13 @@ theorem convert_some {lib : Lib} {f : Frame α γ} {c : Converted α γ} (h : co
   simp only at h
   split at h
   · simp at h
-  · rename_i hne
-    simp only [Option.some.injEq] at h
-    subst h
-    refine ⟨?_, rfl, rfl, rfl, rfl⟩
-    intro he; simp [he] at hne
+  · split at h
+    · simp at h
+    · rename_i hne
+      simp only [Option.some.injEq] at h
+      subst h
+      refine ⟨?_, rfl, rfl, rfl, rfl⟩
+      intro he; simp [he] at hne
 
 theorem blocks_eq_nil (lib : Lib) (f : Frame α γ) :
     blocks lib f = [] ↔ f.cat = none ∧ f.num = none ∧ f.emb = none := by
@@ -221,9 +242,7 @@ theorem threshold_eq (sqrt : R → R) (p : R) :
     threshold (fieldMOps sqrt) p = if (1 : R) / 2 < p then 1 else 0 := by
   unfold threshold
   rw [half_eq]
-  by_cases h : (1 : R) / 2 < p
-  · simp [fieldMOps, h]
-  · simp [fieldMOps, h]
+  simp [fieldMOps]
 
 /-- the number of matching positions, as a count over the zipped pairs -/
 theorem correct_eq (sqrt : R → R) (binary : Bool) (pred target : List R) :
